@@ -1386,3 +1386,6 @@ func (e *Env) captured(fv *ssa.FreeVar) *Term {
 	}
 	return nil
 }
+
+// SingleStore returns the only store into a local (also through closures that capture it), or nil.
+func SingleStore(a *ssa.Alloc) *ssa.Store { return singleStore(a) }
